@@ -43,7 +43,8 @@ RULE = ("(1) field level, exhaustive: attr.ib over cmp/eq/order in {None,True,Fa
         "(8) None, '' and 0 among the field values (all ordered pairs over {None,'',0,1,2} resp. {None,0,1,''}^2) "
         "with key functions that accept them and map falsy values onto the image of another value or return "
         "None, and falsy callable OBJECTS (empty callable dict subclass, __bool__ False, __len__ 0) as "
-        "eq=/cmp=/order= keys.  distinct = distinct "
+        "eq=/cmp=/order= keys; (9) field names with coinciding init aliases (a / _a with one init=False, explicit "
+        "alias=) x different eq keys per field x hash generation.  distinct = distinct "
         "case inputs; non-trivial = at least one eq-participating field and one probe")
 EXTRA_TRUSTED = [
     "CPython's binary-operator dispatch (do_richcompare) as modelled by Common.dispatch; int == int, "
@@ -57,7 +58,8 @@ ASSUMPTIONS = ["key functions are pure and total; truth-testing a comparison res
 # --------------------------------------------------------------------------------------
 # scripted world
 
-NAMES = "abcdef"
+# field names <-> the model's numeric names; "_a" / "_b" have the same default init alias as "a" / "b"
+NAMES = ["a", "b", "c", "d", "e", "f", "_a", "_b"]
 
 
 class E0(Exception):
@@ -399,8 +401,9 @@ def coq_script(script):
                for k, v in sorted(script.items(), key=lambda kv: int(kv[0])))
 
 
-def make_field(api, cmp, eq, order, hash_=None):
-    kw = {}
+def make_field(api, cmp, eq, order, hash_=None, extras=None):
+    """extras: {"init": False} and/or {"alias": name} (colliding init aliases)"""
+    kw = dict(extras or {})
     if hash_ is not None:
         kw["hash"] = {"T": True, "F": False}[hash_]
     if cmp != "N" or api == "s_explicit":
@@ -445,7 +448,7 @@ def build_class(spec, base):
     body = {}
     for f in spec["own"]:
         n, c, e, o = f[:4]
-        body[n] = make_field(spec["api"], c, e, o, f[4] if len(f) > 4 else None)
+        body[n] = make_field(spec["api"], c, e, o, f[4] if len(f) > 4 else None, f[5] if len(f) > 5 else None)
     if spec.get("own_eq"):
         body["__eq__"] = _own_eq
     if spec.get("own_order"):
@@ -494,7 +497,19 @@ def build_chain(specs):
 
 
 def instantiate(cls, fields, vals, world):
-    return cls(**{f[0]: world.value(v) for f, v in zip(fields, vals)})
+    by_name = {f[0]: world.value(v) for f, v in zip(fields, vals)}
+    kw, later = {}, []
+    for a in attr.fields(cls):
+        if a.name not in by_name:
+            continue
+        if a.init:
+            kw[a.alias] = by_name[a.name]
+        else:
+            later.append(a.name)
+    inst = cls(**kw)
+    for n in later:                       # init=False fields: stored directly (works for frozen / slots too)
+        object.__setattr__(inst, n, by_name[n])
+    return inst
 
 
 def observe(fn):
@@ -608,7 +623,7 @@ def parse_eq_source(src, globs):
             chain.append((f1, None))
         else:
             if h1 != "__attr_key_" + f1 or h1 not in globs or id(globs[h1]) not in KEYID:
-                raise Unrecognised("key helper %s" % h1)
+                raise Unrecognised("key helper %s used for field %s (expected __attr_key_%s bound to a known key)" % (h1, f1, f1))
             chain.append((f1, KEYID[id(globs[h1])]))
     return chain
 
@@ -1185,6 +1200,47 @@ def falsy_cases(rng, tier):
     return out
 
 
+def alias_cases(rng, tier):
+    """Field-name shapes whose init aliases coincide (x / _x with one of them init=False, or an explicit
+    alias=) with DIFFERENT eq keys per field: every field is compared through its own key, whatever the
+    names of the helpers in the generated code; with and without a generated __hash__."""
+    out = []
+    keysets = [("K0", "K1"), ("K1", "K0"), ("K2", "K3"), ("K1", "N"), ("N", "K1"), ("K3", "K1"), ("K8", "K2"),
+               ("K1", "Q100")]
+    shapes = [
+        lambda k1, k2: [["a", "N", k1, "N"], ["_a", "N", k2, "N", None, {"init": False}]],
+        lambda k1, k2: [["_a", "N", k1, "N"], ["a", "N", k2, "N", None, {"init": False}]],
+        lambda k1, k2: [["a", "N", k1, "N", None, {"init": False}], ["_a", "N", k2, "N"]],
+        lambda k1, k2: [["a", "N", k1, "N"], ["b", "N", k2, "N", None, {"init": False, "alias": "a"}]],
+        lambda k1, k2: [["b", "N", k1, "N", None, {"alias": "a"}], ["a", "N", k2, "N", None, {"init": False}]],
+        lambda k1, k2: [["_b", "N", k1, "N"], ["c", "N", "N", "N"], ["b", k2, "N", "N", None, {"init": False}]],
+        lambda k1, k2: [["a", "N", k1, "N"], ["_a", "N", k2, "F", None, {"init": False}],
+                        ["_b", "N", k2, "N"], ["b", "N", k1, "N", None, {"init": False}]],
+    ]
+    hashcfgs = [{}, {"frozen": True}, {"unsafe_hash": True}, {"unsafe_hash": True, "cache_hash": True}]
+    combos = [(sh, ks) for sh in shapes for ks in keysets]
+    if tier == "quick":
+        rng.shuffle(combos)
+        combos = combos[:24]
+    for sh, (k1, k2) in combos:
+        own = sh(k1, k2)
+        for cfg in (hashcfgs if tier == "thorough" else [hashcfgs[0], rng.choice(hashcfgs[1:])]):
+            layer = rand_layer(rng, own)
+            layer.update(cmp=None, eq=None, order=None, frozen=False)
+            layer.update(cfg)
+            dom = [-1, 0, 1]
+            if len(own) <= 2:
+                out.append({"chain": [layer], "script": {}, "items": [["all", 0, dom]]})
+            else:
+                items = []
+                for _ in range(40):
+                    xv = [rng.choice(dom) for _ in own]
+                    yv = [v if rng.random() < 0.5 else rng.choice([-v, v, rng.choice(dom)]) for v in xv]
+                    items.append(["pair", 0, xv, 0, yv])
+                out.append({"chain": [layer], "script": {}, "items": items})
+    return out
+
+
 FIELD_VALUES = ["N", "T", "F", "K0", "K1", "Q100", "Q101"]
 
 
@@ -1199,7 +1255,8 @@ def generate(tier, seed):
     for e, o in itertools.product(FIELD_VALUES, repeat=2):
         cases.append(field_case({"api": "d", "cmp": "N", "eq": e, "order": o}))
     for inp in (sweep_cases(rng, tier) + scripted_cases(rng, tier) + chain_cases(rng, tier) + wide_cases(rng, tier)
-                + hash_cases(rng, tier) + keyres_cases(rng, tier) + falsy_cases(rng, tier)):
+                + hash_cases(rng, tier) + keyres_cases(rng, tier) + falsy_cases(rng, tier)
+                + alias_cases(rng, tier)):
         cases.append(chain_case(inp))
     return cases
 
